@@ -48,7 +48,13 @@ pub struct Env {
     /// the simulator through files instead)
     #[serde(default)]
     pub tty: bool,
-    /// resource limits of the process: (open files, stack bytes), set with prlimit(1)
+    /// how the simulated clock moves: (ns per query, jump of N ns at every K-th query)
+    #[serde(default)]
+    pub clock_step: Option<(u64, u64, u64)>,
+    /// programs found first on PATH (stubs in the private directory): which toolchain banner they print
+    #[serde(default)]
+    pub toolbin: Option<usize>,
+    /// resource limits of the process: (open files, stack bytes; u64::MAX = unlimited), set with prlimit(1)
     #[serde(default)]
     pub rlimits: Option<(u64, u64)>,
 }
@@ -71,6 +77,8 @@ impl Env {
             args: vec![],
             tty: false,
             rlimits: None,
+            clock_step: None,
+            toolbin: None,
         }
     }
 }
@@ -157,7 +165,7 @@ pub fn run_child(ctx: &Ctx, env: &Env, sched: &Schedule, durable: &Durable) -> R
         argv.extend(["taskset".to_string(), "-c".to_string(), format!("{}-{}", first, first + n - 1)]);
     }
     if let Some((nofile, stack)) = env.rlimits {
-        argv.extend(["prlimit".to_string(), format!("--nofile={nofile}:"), format!("--stack={stack}:")]);
+        argv.extend(["prlimit".to_string(), format!("--nofile={nofile}:"), if stack == u64::MAX { "--stack=unlimited:".to_string() } else { format!("--stack={stack}:") }]);
     }
     if env.aslr_off {
         argv.extend(["setarch".to_string(), std::env::consts::ARCH.to_string(), "-R".to_string()]);
@@ -193,11 +201,35 @@ pub fn run_child(ctx: &Ctx, env: &Env, sched: &Schedule, durable: &Durable) -> R
         ("VERIF_SHIM_REPORT".into(), "1".into()),
         ("VERIF_ENTROPY_SEED".into(), env.entropy_seed.to_string()),
     ];
-    if let Some(c) = env.clock_base {
-        vars.push(("VERIF_CLOCK_BASE".into(), c.to_string()));
+    // clock and pid are always simulated (a process that reads the real ones for a side channel — a log line,
+    // a statistics file — would otherwise allocate differently from run to run and break replay)
+    vars.push(("VERIF_CLOCK_BASE".into(), env.clock_base.unwrap_or(1_700_000_000).to_string()));
+    if let Some((step, every, jump)) = env.clock_step {
+        vars.push(("VERIF_CLOCK_STEP_NS".into(), step.to_string()));
+        if every > 0 {
+            vars.push(("VERIF_CLOCK_JUMP".into(), format!("{every}:{jump}")));
+        }
     }
-    if let Some(p) = env.fake_pid {
-        vars.push(("VERIF_FAKE_PID".into(), p.to_string()));
+    vars.push(("VERIF_FAKE_PID".into(), env.fake_pid.unwrap_or(4242).to_string()));
+    if let Some(v) = env.toolbin {
+        // stub programs in front of PATH: what the code finds when it asks "which toolchain / which machine is this?"
+        let bin = durable.path.join(format!(".toolbin{v}"));
+        if !bin.exists() {
+            std::fs::create_dir_all(&bin).map_err(|e| format!("toolbin: {e}"))?;
+            let banner = crate::envmodel::TOOL_BANNERS[v % crate::envmodel::TOOL_BANNERS.len()];
+            for (prog, out) in [
+                ("rustc", format!("rustc {banner}")), ("cargo", format!("cargo {banner}")), ("rustdoc", format!("rustdoc {banner}")), ("rustup", "rustup 1.27.1 (54dd3d00f 2024-04-24)".to_string()),
+                ("git", "git version 2.39.2".to_string()), ("cc", "cc (Debian 12.2.0-14) 12.2.0".to_string()), ("uname", "Linux".to_string()), ("hostname", "stub-host".to_string()),
+                ("date", "Thu Jan  1 00:00:00 UTC 1970".to_string()), ("whoami", "builder".to_string()), ("id", "uid=1000(builder) gid=1000(builder) groups=1000(builder)".to_string()), ("nproc", "4".to_string()),
+            ] {
+                let p = bin.join(prog);
+                let fail = banner.starts_with("fail");
+                std::fs::write(&p, if fail { "#!/bin/sh\necho 'error: toolchain is not installed' >&2\nexit 1\n".to_string() } else { format!("#!/bin/sh\necho '{out}'\n") }).map_err(|e| format!("stub {prog}: {e}"))?;
+                use std::os::unix::fs::PermissionsExt;
+                std::fs::set_permissions(&p, std::fs::Permissions::from_mode(0o755)).map_err(|e| format!("chmod {prog}: {e}"))?;
+            }
+        }
+        vars[0].1 = format!("{}:/usr/bin:/bin", bin.to_string_lossy());
     }
     if let Some(h) = &env.hostname {
         vars.push(("VERIF_HOSTNAME".into(), h.clone()));
@@ -507,7 +539,10 @@ fn gen_env(r: &mut Rng, discovered: &[(String, Vec<String>)]) -> Env {
             vec![]
         },
         tty: r.chance(1, 8),
-        rlimits: if r.chance(1, 6) { Some((*r.pick(&[64u64, 256, 1024]), *r.pick(&[8u64 << 20, 16 << 20, 64 << 20, 1 << 30]))) } else { None },
+        rlimits: if r.chance(1, 6) { Some((*r.pick(&[64u64, 256, 1024]), *r.pick(&[8u64 << 20, 16 << 20, 64 << 20, 1 << 30, u64::MAX, u64::MAX]))) } else { None },
+        // mostly microseconds per query; sometimes a clock that races ahead or jumps (a loaded machine, a suspended VM, NTP)
+        clock_step: if r.chance(1, 4) { Some((*r.pick(&[1u64, 1_000, 1_000_000, 60_000_000, 3_000_000_000]), *r.pick(&[0u64, 0, 7, 50]), *r.pick(&[250_000_000u64, 5_000_000_000, 86_400_000_000_000]))) } else { None },
+        toolbin: if r.chance(1, 5) { Some(r.below(crate::envmodel::TOOL_BANNERS.len())) } else { None },
     }
 }
 
@@ -950,6 +985,8 @@ pub struct Stats {
     pub kill_requests_issued: u64,
     pub dim_tty: u64,
     pub dim_rlimits: u64,
+    pub dim_clock_rate: u64,
+    pub dim_toolbin: u64,
     pub dim_config_files: u64,
     pub racy_sessions: u64,
     pub sut_threaded_sessions: u64,
@@ -1046,6 +1083,8 @@ pub fn check_session(ctx: &Ctx, refs: &RefCache, s: &Session, st: &mut Stats, se
         st.dim_cwd_subdir += seg.env.cwd.is_some() as u64;
         st.dim_tty += seg.env.tty as u64;
         st.dim_rlimits += seg.env.rlimits.is_some() as u64;
+        st.dim_clock_rate += seg.env.clock_step.is_some() as u64;
+        st.dim_toolbin += seg.env.toolbin.is_some() as u64;
         st.dim_config_files += seg.env.files.iter().any(|(f, _)| !f.ends_with("Cargo.toml")) as u64;
         st.long_processes += (seg.sched.requests.len() >= 1000) as u64;
         st.entropy_seeds.insert(seg.env.entropy_seed);
@@ -1313,6 +1352,12 @@ pub fn minimise(ctx: &Ctx, refs: &RefCache, d: &Divergence, s: &Session, seed: u
     e.rlimits = None;
     try_env(e, &mut env_min, &mut steps);
     let mut e = env_min.clone();
+    e.clock_step = None;
+    try_env(e, &mut env_min, &mut steps);
+    let mut e = env_min.clone();
+    e.toolbin = None;
+    try_env(e, &mut env_min, &mut steps);
+    let mut e = env_min.clone();
     e.uid = None;
     try_env(e, &mut env_min, &mut steps);
     let mut e = env_min.clone();
@@ -1394,6 +1439,10 @@ fn describe(env: &Env, sched: &Schedule, ec: &str, oc: &str) -> String {
         "depends on whether the compiler's standard streams are a terminal"
     } else if n == 1 && env.rlimits.is_some() {
         "depends on the process's resource limits"
+    } else if n == 1 && env.toolbin.is_some() {
+        "depends on the programs found on PATH (answers of `rustc --version` and the like)"
+    } else if n == 1 && env.clock_step.is_some() {
+        "depends on how fast the clock moves (elapsed time)"
     } else if n == 1 && env.host.is_some() {
         "depends on the name of the host executable"
     } else if n == 1 && !env.files.is_empty() {
@@ -1548,6 +1597,8 @@ pub fn run_batch(ctx: Arc<Ctx>, corpus: Arc<Corpus>, refs: Arc<RefCache>, seed: 
         total.kill_requests_issued += s.kill_requests_issued;
         total.dim_tty += s.dim_tty;
         total.dim_rlimits += s.dim_rlimits;
+        total.dim_clock_rate += s.dim_clock_rate;
+        total.dim_toolbin += s.dim_toolbin;
         total.dim_config_files += s.dim_config_files;
         total.racy_sessions += s.racy_sessions;
         total.sut_threaded_sessions += s.sut_threaded_sessions;
